@@ -2,7 +2,7 @@
 
 PROP = {
     "targets": ["Props/C07.vo", "Corr/CorrCore.vo", "Bridge/BrVMSteps.vo"],
-    "cone": ["BC/ReuseProofs.v", "Bridge/BrVM.v", "BC/VMStepsProofs.v", "Bridge/BrVMSteps.v"],
+    "cone": ["BC/ReuseProofs.v", "Bridge/BrVM.v", "BC/VMStepsProofs.v", "Bridge/BrVMSteps.v", "BC/SourceCorrect.v"],
     "harness": "c07",
     "mismatch_div": 16,
     "failure_bits": 8,
@@ -13,7 +13,7 @@ PROP = {
 }
 
 MANIFEST = {
-    "text": "Coq theorem C07_reuse: for EVERY history of runs (any programs, environments, budgets; succeeding, failing midway, exhausting the budget) on one VM value in any state, every run returns what a fresh VM returns — proved for the reset set that the translator reads off the prologue of (*VM).Run on every run (stack, scopes, ip, allocation counter reset; limit, bytecode, constants, pp reloaded). C07_memory_reset_needed shows by a kernel-computed witness that the statement is false without the reset of the allocation counter (the defect fixed by c75f069). Implementation: random histories on one vm.VM value crossing small budgets many times, each run compared with a fresh vm.VM and with the Coq model. The prologue itself is regenerated and interpreted (Bridge/BrVMSteps.v): run on a machine in ANY state it yields ip 0, pp 0, empty stack, no scopes, counter 0 (C07_prologue_resets), and the source Run from any earlier state is the model's run (C07_source_run_ignores_previous_state).",
+    "text": "Coq theorem C07_reuse: for EVERY history of runs (any programs, environments, budgets; succeeding, failing midway, exhausting the budget) on one VM value in any state, every run returns what a fresh VM returns — proved for the reset set that the translator reads off the prologue of (*VM).Run on every run (stack, scopes, ip, allocation counter reset; limit, bytecode, constants, pp reloaded). C07_memory_reset_needed shows by a kernel-computed witness that the statement is false without the reset of the allocation counter (the defect fixed by c75f069). Implementation: random histories on one vm.VM value crossing small budgets many times, each run compared with a fresh vm.VM and with the Coq model. The prologue itself is regenerated and interpreted (Bridge/BrVMSteps.v): run on a machine in ANY state it yields ip 0, pp 0, empty stack, no scopes, counter 0 (C07_prologue_resets), and the source Run from any earlier state is the model's run (C07_source_run_ignores_previous_state). Over the regenerated terms only (BC/SourceCorrect.v): C07_source_history_is_ref / C07_source_history_is_fresh - any history of jobs (budget, environment, cast, expression) on ONE machine in any state, each run (code from the regenerated compiler schemes, run by the regenerated Run) starting from what the previous one left, returns per job what the language definition says, hence what the job returns alone from the initial state (decidable per-job condition sjob_ok: compilable, run_guard, enough fuel; example: success, budget refusal midway, failure inside a closure, success again on a dirty machine).",
     "design_ref": "DESIGN.md §4 C07",
     "note": "Trusted: Coq kernel; translator; VM model. A new field added to vm.VM changes vm_fields and fails the bridge (forces a review).",
     "technique": "Coq proof: non-interference of the prologue (induction over the history) over a translator-regenerated reset set; executed histories on the real VM",
